@@ -6,7 +6,7 @@ From Coq Require Import List Arith NArith Bool Lia.
 From TX Require Import Base.Val Model.ConnCode Proofs.ConnCode Gen.C06.
 Import ListNotations.
 
-Definition impl_cfg : cfg := {| use_claim := impl_use_claim; create_cleanup := impl_create_cleanup; use_admit := impl_use_admit |}.
+Definition impl_cfg : cfg := {| use_claim := impl_use_claim; create_cleanup := impl_create_cleanup; use_admit := impl_use_admit; purge_revoked := false |}.
 
 Fixpoint solo (C : cfg) (P : params) (fuel : nat) (t : lo) (s : sh) : list nat :=
   match fuel with
